@@ -29,6 +29,7 @@ def case_strategy(draw):
     spec["cols"].append({"name": "s", "kind": "int", "values": [(i * 5 + seed) % (t + 1) for i, t in enumerate(trials)]})
     spec["cols"].append({"name": "n", "kind": "int", "values": trials})
     spec["cols"].append({"name": "t", "kind": "float", "values": [3.0] * n})  # an exposure that happens to be constant in training
+    spec["cols"].append({"name": "t0", "kind": "float", "values": [0.0 if i == seed % n else float(1 + i % 4) for i in range(n)]})  # an exposure of zero: its logarithm is -inf
     spec["cols"].append({"name": "nc", "kind": "int", "values": [30] * n})  # ... and a number of trials that is the same in every training row
     # a Categorical that declares a category no row has (what is left after filtering rows): 'zz' never occurs
     spec["cols"].append({"name": "cg", "kind": "cat", "values": ["m" if (i + seed) % 3 else "n" for i in range(n)], "categories": ["n", "zz", "m"], "ordered": False})
@@ -45,11 +46,11 @@ def case_strategy(draw):
         c["fn"] = draw(st.sampled_from(["binary", "B"]))
         c["keyword"] = draw(st.booleans())
     elif kind == "offset":
-        c["arg"] = draw(st.sampled_from(["x", "z", "k", "2", "2.5", "-2", "1 + 1", "-1.5", "3 * 2", "np.log(p)", "x * 2", "-x", "0", "k + 1", "t", "np.log(t)", "t * 2", "np.mean(x)", "np.log(np.max(p))", "np.mean(z) * 2"]))
+        c["arg"] = draw(st.sampled_from(["x", "z", "k", "2", "2.5", "-2", "1 + 1", "-1.5", "3 * 2", "np.log(p)", "x * 2", "-x", "0", "k + 1", "t", "np.log(t)", "t * 2", "np.mean(x)", "np.log(np.max(p))", "np.mean(z) * 2", "np.log(t0)", "-np.log(t0)"]))
         c["by_keyword"] = draw(st.integers(0, 4)) == 0  # offset(x=...): the argument passed by its name
     elif kind == "prop":
         c["fn"] = draw(st.sampled_from(["prop", "p", "proportion"]))
-        c["trials"] = draw(st.sampled_from(["n", "n", "40", "trials=n", "trials=40", "n + 1", "nc", "trials=nc"]))
+        c["trials"] = draw(st.sampled_from(["n", "n", "40", "trials=n", "trials=40", "n + 1", "nc", "trials=nc", "N40", "trials=N40", "N40 + 1"]))  # N40: a number the caller holds in a variable
         c["spelling"] = draw(st.sampled_from(["positional", "positional", "successes=", "trials_first"]))  # both arguments by keyword, in either order
         c["float_counts"] = draw(st.integers(0, 3)) == 0  # integer-valued float columns are valid counts
     elif kind == "prop_invalid":
@@ -95,7 +96,7 @@ def judge(ctx, case):
         return
     spec, kind = case["frame"], case["kind"]
     frame = frames.build(spec)
-    ns = {"np": np}
+    ns = {"np": np, "N40": 40}
     nontrivial = bool(case.get("fresh")) or len(set(case["new_rows"])) < len(frame)
     classes = ["kind:" + kind]
 
@@ -165,7 +166,7 @@ def judge(ctx, case):
         done(formula, extra=["offset:" + ("column" if arg in ("x", "z", "t", "k") else ("call" if any(c.isalpha() for c in arg) else "constant"))])
         full = dict(case, formula=formula)
         env = {"x": frame["x"].to_numpy(dtype=float), "z": frame["z"].to_numpy(dtype=float), "p": frame["p"].to_numpy(dtype=float), "np": np,
-               "k": frame["k"].to_numpy(dtype=float), "t": frame["t"].to_numpy(dtype=float)}
+               "k": frame["k"].to_numpy(dtype=float), "t": frame["t"].to_numpy(dtype=float), "t0": frame["t0"].to_numpy(dtype=float)}
         try:
             dm = build(formula)
             name = [t for t in dm.common.terms if t.startswith("offset")][0]
@@ -178,7 +179,7 @@ def judge(ctx, case):
             ctx.fail("offset", full, f"{formula!r}: the offset column is not {arg} (broadcast)", "training_values")
         new = new_frame(case)
         env2 = {"x": new["x"].to_numpy(dtype=float), "z": new["z"].to_numpy(dtype=float), "p": new["p"].to_numpy(dtype=float), "np": np,
-                "k": new["k"].to_numpy(dtype=float), "t": new["t"].to_numpy(dtype=float)}
+                "k": new["k"].to_numpy(dtype=float), "t": new["t"].to_numpy(dtype=float), "t0": new["t0"].to_numpy(dtype=float)}
         try:
             with core.Guard():
                 g2 = col_of(dm.common.evaluate_new_data(new)[name])
@@ -208,7 +209,7 @@ def judge(ctx, case):
         except Exception as e:  # pylint: disable=broad-except
             ctx.fail("prop", full, f"{formula!r} raised {type(e).__name__}: {e}", "training:" + core.exc_key(e))
             return
-        want_t = np.broadcast_to(np.asarray(eval(texpr, {}, {"n": frame["n"].to_numpy(), "nc": frame["nc"].to_numpy()})), (len(frame),))  # pylint: disable=eval-used
+        want_t = np.broadcast_to(np.asarray(eval(texpr, {}, {"n": frame["n"].to_numpy(), "nc": frame["nc"].to_numpy(), "N40": 40})), (len(frame),))  # pylint: disable=eval-used
         if got.shape != (len(frame), 2) or not np.array_equal(got[:, 0], frame["s"].to_numpy()) or not np.array_equal(got[:, 1], want_t):
             ctx.fail("prop", full, f"{formula!r}: response rows are not (successes, trials)", "training_values")
         new = new_frame(case, drop=("s", "y"))
@@ -218,7 +219,7 @@ def judge(ctx, case):
         except Exception as e:  # pylint: disable=broad-except
             ctx.fail("prop", full, f"{formula!r}: response.evaluate_new_data raised {type(e).__name__}: {e}", "prediction:" + type(e).__name__)
             return
-        want2 = np.broadcast_to(np.asarray(eval(texpr, {}, {"n": new["n"].to_numpy(), "nc": new["nc"].to_numpy()}), dtype=float), (len(new),))  # pylint: disable=eval-used
+        want2 = np.broadcast_to(np.asarray(eval(texpr, {}, {"n": new["n"].to_numpy(), "nc": new["nc"].to_numpy(), "N40": 40}), dtype=float), (len(new),))  # pylint: disable=eval-used
         if g2.shape != (len(new),) or not np.array_equal(g2, want2):
             ctx.fail("prop", full, f"{formula!r}: at prediction the trials of the new frame are {want2.tolist()}, got {g2.tolist()}", "prediction_values")
         return
